@@ -598,6 +598,90 @@ def rule_rank(repo: Repo, rep: Report) -> int:
 
 
 # ---------------------------------------------------------------------------
+# EXTRINSIC principle
+# ---------------------------------------------------------------------------
+
+def rule_extrinsic(repo: Repo, rep: Report) -> int:
+    """The message sent over an edge is a function of the messages on the OTHER edges of the node only: in the check
+    updates every data path from the incoming messages `vc` to the value appended to `cv` passes through the
+    extrinsic gather `.gather(2, ext_ce)`.  (A formula that multiplies the own message back out agrees only when
+    no message is exactly zero: sign(0) = 0, tanh(0) = 0.)"""
+    n = 0
+    for file, cname, fname in ((BP, "BeliefPropagationDecoder", "compute_cv"), (MS, "MinSumLDPCDecoder", "compute_cv_minsum")):
+        ci = repo.cls(file, cname)
+        fi = repo.method(ci, fname)
+        defs: Dict[str, List[ast.AST]] = {}
+        for s_ in ast.walk(fi.node):
+            if isinstance(s_, ast.Assign):
+                for t in s_.targets:
+                    for e in (t.elts if isinstance(t, (ast.Tuple, ast.List)) else [t]):
+                        if isinstance(e, ast.Name):
+                            defs.setdefault(e.id, []).append(s_.value)
+
+        def is_ext_gather(e: ast.AST) -> bool:
+            return isinstance(e, ast.Call) and isinstance(e.func, ast.Attribute) and e.func.attr == "gather" and len(e.args) == 2 and num_value(e.args[0]) == 2 and any(isinstance(x, ast.Name) and x.id.startswith("ext_ce") for x in ast.walk(e.args[1]))
+
+        kinds: Dict[str, set] = {"vc": {"raw"}}
+        verdicts: List[tuple] = []
+
+        def expr_kinds(e: ast.AST) -> set:
+            if is_ext_gather(e):
+                inner = expr_kinds(e.func.value)
+                return {"ext"} if inner else set()
+            if isinstance(e, ast.Call) and isinstance(e.func, ast.Attribute) and e.func.attr in ("size", "dim", "numel", "get_device", "type"):
+                return set()  # shape / type metadata carries no message values
+            if isinstance(e, ast.Attribute) and e.attr in ("shape", "device", "dtype", "ndim"):
+                return set()
+            out = set()
+            for ch in ast.iter_child_nodes(e):
+                if isinstance(ch, ast.keyword):
+                    out |= expr_kinds(ch.value)
+                elif isinstance(ch, ast.comprehension):
+                    out |= expr_kinds(ch.iter)
+                elif isinstance(ch, ast.expr):
+                    out |= expr_kinds(ch)
+            if isinstance(e, ast.Name) and e.id in kinds:
+                out |= kinds[e.id]
+            return out
+
+        def walk(body):
+            for st in body:
+                if isinstance(st, ast.Assign):
+                    k_ = expr_kinds(st.value)
+                    for t in st.targets:
+                        for e_ in (t.elts if isinstance(t, (ast.Tuple, ast.List)) else [t]):
+                            if isinstance(e_, ast.Name):
+                                kinds[e_.id] = set(k_)  # strong update in statement order
+                elif isinstance(st, ast.AugAssign) and isinstance(st.target, ast.Name):
+                    kinds[st.target.id] = kinds.get(st.target.id, set()) | expr_kinds(st.value)
+                elif isinstance(st, ast.If):
+                    before = {k: set(v) for k, v in kinds.items()}
+                    walk(st.body)
+                    after_body = {k: set(v) for k, v in kinds.items()}
+                    kinds.clear()
+                    kinds.update(before)
+                    walk(st.orelse)
+                    for k, v in after_body.items():
+                        kinds[k] = kinds.get(k, set()) | v
+                elif isinstance(st, (ast.For, ast.While)):
+                    walk(st.body)
+                elif isinstance(st, ast.Expr) and isinstance(st.value, ast.Call) and match(st.value, "cv.append(_X)") is not None:
+                    verdicts.append((st.value, expr_kinds(st.value.args[0])))
+
+        walk(fi.body)
+        if not verdicts:
+            rep.undecided("EXTRINSIC", fi, f"{cname}.{fname}: cv.append(...)", "no per-group result found")
+        for c, ks in verdicts:
+            n += 1
+            if ks == {"ext"} or not ks:
+                rep.ok("EXTRINSIC", fi, f"{cname}.{fname}: {unparse(c)}", "depends on the incoming messages only through the extrinsic gather" if ks else "constant (degree-1 checks send nothing)", node=c)
+            else:
+                raw_names = sorted(k for k, v in kinds.items() if "raw" in v and k not in ("vc", "vc_extended", "tanh_vc"))
+                rep.violation("EXTRINSIC", fi, f"{cname}.{fname}: {unparse(c)}", f"the outgoing message also depends on the incoming messages outside the extrinsic gather (via {raw_names or 'a direct read of vc'}): the message on an edge is then a function of that edge's own incoming message - it differs from the extrinsic rule whenever a message is exactly zero (erasures, quantised LLRs)", node=c)
+    return n
+
+
+# ---------------------------------------------------------------------------
 # SCALE (homogeneity)
 # ---------------------------------------------------------------------------
 SATURATING = {"clamp", "clip", "clamp_", "clip_", "hardtanh", "tanh", "sigmoid", "round", "floor", "ceil", "trunc", "nan_to_num", "clamp_min", "clamp_max", "softsign", "erf", "atan", "arctan", "exp", "log", "log1p", "sqrt", "square", "pow"}
@@ -789,6 +873,7 @@ def run(repo: Repo, rep: Report, tier: str) -> None:
     n += rule_bp(repo, rep)
     n += rule_minsum(repo, rep)
     n += rule_rank(repo, rep)
+    n += rule_extrinsic(repo, rep)
     n += rule_scale(repo, rep)
     n += rule_wagner(repo, rep)
     n += rule_rm(repo, rep)
